@@ -17,6 +17,7 @@ func main() {
 		lib.Fatal("usage: annotate out.json name=path ...")
 	}
 	out := map[string]any{}
+	sch := map[string][]string{}
 	for _, a := range os.Args[2:] {
 		name, path, ok := strings.Cut(a, "=")
 		if !ok {
@@ -35,6 +36,16 @@ func main() {
 			lib.Fatal("annotate %s: %v", path, err)
 		}
 		out[name] = an.Root
+		for k, v := range lib.SchemaOfTree(an.Root) {
+			sch[k] = v
+		}
+	}
+	sb, err := json.Marshal(sch)
+	if err != nil {
+		lib.Fatal("%v", err)
+	}
+	if err := os.WriteFile(strings.TrimSuffix(os.Args[1], ".json")+"Schema.json", sb, 0o644); err != nil {
+		lib.Fatal("%v", err)
 	}
 	b, err := json.Marshal(out)
 	if err != nil {
